@@ -121,14 +121,16 @@ SeenVR(ts, tag, vr) == IF Explicit(ts) THEN vr ELSE ImplicitVR(tag)
 (* a value of that VR accepts it (digits for numeric strings, a valid      *)
 (* partial date/time, letters otherwise); `n` is the number of bytes.      *)
 Spaces(n) == [i \in 1..n |-> 32]
+(* long values (only C08 needs them) are uniform runs, so that they travel compactly *)
+Long(n) == n > 64
 ValBytes(vr, n, salt) ==
   CASE vr \in {"DA", "DT"} -> IF n >= 4 THEN <<50, 48, 50, 48>> \o Spaces(n - 4) ELSE Spaces(n)
     [] vr = "TM" -> IF n >= 2 THEN <<49, 48>> \o Spaces(n - 2) ELSE Spaces(n)
     [] vr \in {"IS", "DS"} -> IF n >= 1 THEN <<49 + (salt % 9)>> \o Spaces(n - 1) ELSE <<>>
-    [] vr = "UI" -> [i \in 1..n |-> IF i % 2 = 1 THEN 49 + ((salt + i) % 9) ELSE 46]
+    [] vr = "UI" -> [i \in 1..n |-> IF Long(n) THEN 49 ELSE IF i % 2 = 1 THEN 49 + ((salt + i) % 9) ELSE 46]
     [] vr \in {"AE","AS","CS","LO","LT","PN","SH","ST","UC","UR","UT"} ->
-         [i \in 1..n |-> 65 + ((salt + i) % 26)]
-    [] OTHER -> [i \in 1..n |-> 1 + ((salt + i) % 9)]
+         [i \in 1..n |-> IF Long(n) THEN 65 ELSE 65 + ((salt + i) % 26)]
+    [] OTHER -> [i \in 1..n |-> IF Long(n) THEN 7 ELSE 1 + ((salt + i) % 9)]
 
 ---------------------------------------------------------------------------
 (* Abstract data set: a sequence of nodes                                  *)
